@@ -376,3 +376,543 @@ def lem_pal4():
     return [n >= 1, 0 <= q, q < 2 * n - 1, 0 <= b, b < 5], And(
         pos(4 - b, 2 * n - 2 - q) == tot - 1 - pos(b, q), m(b) == m(4 - b), layer2(q, n) == layer2(2 * n - 2 - q, n),
         frac2(q, n) == frac2(2 * n - 2 - q, n))
+
+
+# ======================================================================================================
+# TEBD (tn1d/tebd.py): abstract state
+# ======================================================================================================
+#
+# Ghost state of a TEBD object (heap fields g_*):
+#   g_S   : V       denotation chain of every gate applied so far:  S' = G(bond, fraction, S)
+#   g_amt : bond -> Real, g_cnt : bond -> Int     accumulated fraction / number of gates per bond (bond b = (b,(b+1) mod L))
+# Spec functions (definitional instances are assumed where needed, labelled def-...):
+#   RS(f, S, m)  right-sweep prefix: RS(f,S,0) = S,  RS(f,S,m+1) = G(2m, f, RS(f,S,m))
+#   LS(f, S, m)  left-sweep prefix : LS(f,S,0) = S,  LS(f,S,m+1) = G(last-2m, f, LS(f,S,m)),  last = largest odd <= L-2
+#   Sw(0,f,S) = [G(L-1,f,.) if cyclic and L odd] RS(f,S,L div 2)        (even bonds)
+#   Sw(1,f,S) = LS(f, [G(L-1,f,S) if cyclic and L even], (L-1) div 2)   (odd bonds)
+#   queue: the *logical* state is  D = Sw(qdir, qfrac, g_S) if a sweep is queued else g_S;
+#          MERGE (the meaning of "modulo merging equal neighbours"):  Sw(d, a, Sw(d, b, S)) = Sw(d, a + b, S).
+
+import contracts.c08_mps as c08  # MPS ghost domain (isL / isR) and the proved canonisation contracts  # noqa: E402
+
+G_ = z3.Function("G", z3.IntSort(), Re, V, V)
+RS = z3.Function("RS", Re, V, z3.IntSort(), V)
+LS = z3.Function("LS", Re, V, z3.IntSort(), V)
+Sw = z3.Function("Sw", z3.IntSort(), Re, V, V)
+KB = z3.Int("k!bond")  # skolem bond
+K = c08.K
+DIRS = {"right": 0, "left": 1}
+TEBDC = f"{F1}::TEBD"
+
+
+def nbonds(L, cyclic):
+    return L - 1 + (1 if cyclic else 0)
+
+
+def in_dir(k, d, L, cyclic):
+    """bond k belongs to the sweep of direction flag d (0: even bonds, 1: odd bonds)"""
+    return And(0 <= k, k < nbonds(L, cyclic), k % 2 == d)
+
+
+def nL_of(L):
+    return (L - 1) / 2  # number of odd bonds b with 1 <= b <= L-2   (z3 int division, L >= 2)
+
+
+def last_odd(L):
+    return 2 * nL_of(L) - 1
+
+
+def sw_def(d, f, S, L, cyclic):
+    """definitional expansion of Sw(d, f, S)"""
+    f = R(f)
+    if d == 0:
+        body = RS(f, S, L / 2)
+        return If(And(cyclic, L % 2 == 1), G_(L - 1, f, body), body) if cyclic else body
+    S0 = If(L % 2 == 0, G_(L - 1, f, S), S) if cyclic else S
+    return LS(f, S0, nL_of(L))
+
+
+class QS:
+    """abstract queue state used in callers' heaps: present (bool / z3 Bool), dir flag (int / z3 Int), frac (real)"""
+
+    def __init__(self, present, d=0, frac=0):
+        self.present, self.d, self.frac = present, d, frac
+
+
+ABSENT = "<absent>"
+
+
+def get_queue(f):
+    """(representation, present, dirflag, frac) of the queued sweep"""
+    q = f.get("_queued_sweep", ABSENT)
+    if isinstance(q, QS):
+        return "abs", q.present, q.d, q.frac
+    if q is ABSENT or q is None:
+        return "py", False, 0, 0
+    return "py", True, DIRS[q[0]], q[1]
+
+
+def set_queue(f, rep, present, d=0, frac=0):
+    if rep == "abs":
+        f["_queued_sweep"] = QS(present, d, frac)
+    else:
+        f["_queued_sweep"] = [("right", "left")[d], frac] if present else None
+
+
+def D_logical(f):
+    _, present, d, frac = get_queue(f)
+    if present is False:
+        return f["g_S"]
+    pend = Sw(Z(d), R(frac), f["g_S"])
+    return pend if present is True else If(present, pend, f["g_S"])
+
+
+def gauge_pre(cx, mps, d):
+    """canonical form a sweep of direction d needs on entry (open chains): right: centre in {0,1}; left: centre >= L-2"""
+    f = cx.fields(mps)
+    if d == 0:
+        return c08.forall_sites(Implies(And(1 < K, K < f["L"]), c08.sel(f["isR"], K)))
+    return c08.forall_sites(Implies(And(0 <= K, K < f["L"] - 2), c08.sel(f["isL"], K)))
+
+
+def gauge_post(cx, mps, d):
+    """right sweep leaves the centre at L-1, left sweep at 0"""
+    f = cx.fields(mps)
+    if d == 0:
+        return c08.forall_sites(Implies(And(0 <= K, K < f["L"] - 1), c08.sel(f["isL"], K)))
+    return c08.forall_sites(Implies(And(0 < K, K < f["L"]), c08.sel(f["isR"], K)))
+
+
+def perform(cx, ref, d, frac, node, who):
+    """abstract effect of one performed sweep of direction flag d (proved for the body of TEBD.sweep)"""
+    f = cx.fields(ref)
+    L, cyclic = f["L"], f["cyclic"]
+    mps = f["_pt"]
+    if not cyclic:
+        cx.oblige(f"call-pre@{node.lineno}:{who}:gauge: orthogonality centre at the first bond of the {('right', 'left')[d]} sweep",
+                  "call-pre", gauge_pre(cx, mps, d), node.lineno)
+    f["g_S"] = Sw(z3.IntVal(d), R(frac), f["g_S"])
+    amt, cnt = cx.Array("g_amt", z3.IntSort(), Re), cx.Array("g_cnt", z3.IntSort(), z3.IntSort())
+    hit = in_dir(KB, d, L, cyclic)
+    cx.assume(And(z3.Select(amt, KB) == z3.Select(f["g_amt"], KB) + If(hit, R(frac), 0),
+                  z3.Select(cnt, KB) == z3.Select(f["g_cnt"], KB) + If(hit, 1, 0)))
+    f["g_amt"], f["g_cnt"] = amt, cnt
+    m = cx.fields(mps)
+    m["isL"], m["isR"] = cx.Array("isL", z3.IntSort(), z3.BoolSort()), cx.Array("isR", z3.IntSort(), z3.BoolSort())
+    if not cyclic:
+        if d == 0 or not f["imag"]:
+            cx.assume(gauge_post(cx, mps, d))
+        else:
+            # imaginary time, left sweep: the renormalisation divides site 1 (proved to fail the centre obligation in
+            # the body of sweep): only sites 2..L-1 are known to be right isometries afterwards
+            cx.assume(gauge_pre(cx, mps, 0))
+
+
+def new_tebd(cx, cyclic=False, imag=False, queue=ABSENT, L=None, **extra):
+    L = L if L is not None else cx.Int("L")
+    mps = cx.new_obj("MPS", L=L, cyclic=cyclic, isL=cx.Array("isL", z3.IntSort(), z3.BoolSort()),
+                     isR=cx.Array("isR", z3.IntSort(), z3.BoolSort()))
+    fields = dict(L=L, cyclic=cyclic, imag=imag, _pt=mps, _dt=cx.Real("_dt"), t=cx.Real("t"), t0=cx.Real("t0"),
+                  _err=cx.Real("err"), _ham_norm=cx.Real("ham_norm"), dt=None, tol=None, progbar=False, split_opts={},
+                  H=cx.Opaque("H"), g_S=cx.Val("S"), g_amt=cx.Array("g_amt", z3.IntSort(), Re),
+                  g_cnt=cx.Array("g_cnt", z3.IntSort(), z3.IntSort()), g_nsteps=0, g_nyield=0)
+    if queue is not ABSENT:
+        fields["_queued_sweep"] = queue
+    fields.update(extra)
+    ref = cx.new_obj("TEBD", **fields)
+    cx.ghost["self"] = ref
+    cx.assume(L >= (3 if cyclic else 2))
+    return ref
+
+
+class Gate:
+    def __init__(self, frac, sites):
+        self.frac, self.sites = frac, sites
+
+
+class TEBDContract(SeqMixin, c08.MPSContract):
+    property_ids = ("C11",)
+    drops = "decorators, docstrings, ascii-art comments"
+    ghost_fields = ()
+
+    def attr(self, cx, base, attr, node):
+        if isinstance(base, Ref) and base.kind == "TEBD":
+            if attr == "TARGET_TOL":
+                return fractions.Fraction(1, 10 ** 13)
+            if attr == "pt":
+                # property: a copy of the current state (a distinct object carrying the same ghost facts)
+                m = cx.fields(cx.fields(base)["_pt"])
+                return cx.new_obj("MPS", **dict(m), g_S=cx.fields(base)["g_S"], g_t=cx.fields(base)["t"])
+            if attr == "_queued_sweep":
+                raise PyRaise("AttributeError", getattr(node, "lineno", 0))
+        return c08.MPSContract.attr(self, cx, base, attr, node)
+
+    def call(self, cx, name, args, kwargs, node):
+        line = getattr(node, "lineno", 0)
+        r = self.seq_hooks(cx, name, args, kwargs, node)
+        if r is not NotImplemented:
+            return r
+        if name == "hasattr" and isinstance(args[0], Ref):
+            return args[1] in cx.fields(args[0])
+        if name == "__pow__":
+            return pw(args[0], args[1])
+        if name == "continuous_progbar":
+            return None
+        if name.startswith(".") and isinstance(args[0], Ref) and args[0].kind == "TEBD":
+            recv, rest, m = args[0], args[1:], name[1:]
+            if m == "_get_gate_from_ham":
+                # [leaf] the cached gate expm(-(i or 1) * _dt * dt_frac * H_sites): a function of (fraction, sites)
+                return Gate(rest[0], rest[1])
+            tgt = f"{TEBDC}.{m}"
+            if tgt in REGISTRY:
+                return cx.call_contract(REGISTRY[tgt], rest, kwargs, node, recv=recv)
+            return NotImplemented
+        if name == ".gate_split_" and isinstance(args[0], Ref) and args[0].kind == "MPS":
+            return self.leaf_gate_split(cx, args[0], args[1], kwargs, node)
+        if name == ".norm" and isinstance(args[0], c08.Site):
+            return cx.Real("site_norm")
+        if name == "__binop__" and args[0] == "Div" and isinstance(args[1], c08.Site):
+            return ("scaled-site", args[1], args[2])
+        if name == "__setitem__" and isinstance(args[0], Ref) and args[0].kind == "MPS":
+            return self.leaf_rescale_site(cx, args[0], args[1], args[2], node)
+        return c08.MPSContract.call(self, cx, name, args, kwargs, node)
+
+    # ---- leaves ----------------------------------------------------------------------------------
+    def leaf_gate_split(self, cx, mps, U, kwargs, node):
+        """[leaf] gate_split_(U, where=(a,b), absorb): applies U on sites (a,b) and splits; absorb='right' leaves
+        site a a left isometry, absorb='left' leaves site b a right isometry; the truncation is optimal only if the
+        orthogonality centre is on the two sites (every site left of a is a left isometry, every site right of b a
+        right isometry)"""
+        line = node.lineno
+        ref = cx.ghost["self"]
+        f = cx.fields(ref)
+        L, cyclic = f["L"], f["cyclic"]
+        where, absorb = kwargs.get("where"), kwargs.get("absorb")
+        ok = isinstance(U, Gate) and isinstance(where, tuple) and len(where) == 2
+        cx.oblige(f"gate@{line}:is-a-hamiltonian-gate-on-a-site-pair", "call-arg", ok, line)
+        if not ok:
+            raise Unsupported("gate_split_ call shape")
+        a, b = where
+        nb = nbonds(L, cyclic)
+        # b = (a+1) mod L  written without mod: a+1 if a < L-1 else 0
+        cx.oblige(f"gate@{line}:acts-on-a-bond-(b,(b+1) mod L)-of-the-chain", "call-arg",
+                  And(0 <= a, a < nb, Z(b) == If(a == L - 1, 0, a + 1)), line)
+        cx.oblige(f"gate@{line}:gate-was-built-for-these-sites", "call-arg", veq(tuple(U.sites), (a, b)), line)
+        f["g_S"] = G_(Z(a), R(U.frac), f["g_S"])
+        f["g_amt"] = z3.Store(f["g_amt"], a, z3.Select(f["g_amt"], a) + R(U.frac))
+        f["g_cnt"] = z3.Store(f["g_cnt"], a, z3.Select(f["g_cnt"], a) + 1)
+        cx.events.append(("gate", a, U.frac))
+        m = cx.fields(mps)
+        if not cyclic:
+            cx.oblige(f"call-pre@{line}:gate_split_:gauge: orthogonality centre is on the sites the gate acts on", "call-pre",
+                      And(c08.forall_sites(Implies(And(0 <= K, K < a), c08.sel(m["isL"], K))),
+                          c08.forall_sites(Implies(And(a + 1 < K, K < L), c08.sel(m["isR"], K)))), line)
+            h = [cx.Bool("hv") for _ in range(3)]
+            if absorb == "right":
+                m["isL"] = z3.Store(z3.Store(m["isL"], a, True), a + 1, h[0])
+                m["isR"] = z3.Store(z3.Store(m["isR"], a, h[1]), a + 1, h[2])
+            elif absorb == "left":
+                m["isR"] = z3.Store(z3.Store(m["isR"], a + 1, True), a, h[0])
+                m["isL"] = z3.Store(z3.Store(m["isL"], a, h[1]), a + 1, h[2])
+            else:
+                m["isL"] = z3.Store(z3.Store(m["isL"], a, h[0]), a + 1, h[1])
+                m["isR"] = z3.Store(z3.Store(m["isR"], a, h[2]), a + 1, cx.Bool("hv"))
+        return mps
+
+    def leaf_rescale_site(self, cx, mps, idx, val, node):
+        """self._pt[c] /= norm(self._pt[c]): normalises the state iff c is the orthogonality centre; dividing an
+        isometry by its norm destroys the isometry"""
+        line = node.lineno
+        ok = isinstance(val, tuple) and val and val[0] == "scaled-site" and val[1].mps == mps
+        cx.oblige(f"renorm@{line}:rescales-the-same-site", "call-arg", ok and veq(val[1].i, idx), line)
+        m = cx.fields(mps)
+        L = m["L"]
+        f = cx.fields(cx.ghost["self"])
+        if not f["cyclic"]:
+            cx.oblige(f"renorm@{line}:gauge: renormalised site is the orthogonality centre", "call-pre",
+                      And(c08.forall_sites(Implies(And(0 <= K, K < idx), c08.sel(m["isL"], K))),
+                          c08.forall_sites(Implies(And(idx < K, K < L), c08.sel(m["isR"], K)))), line)
+            m["isL"] = z3.Store(m["isL"], idx, cx.Bool("hv"))
+            m["isR"] = z3.Store(m["isR"], idx, cx.Bool("hv"))
+        cx.events.append(("renorm", idx))
+        return None
+
+    def havoc_heap(self, cx):
+        ref = cx.ghost["self"]
+        f = cx.fields(ref)
+        f["g_S"] = cx.Val("S")
+        f["g_amt"], f["g_cnt"] = cx.Array("g_amt", z3.IntSort(), Re), cx.Array("g_cnt", z3.IntSort(), z3.IntSort())
+        m = cx.fields(f["_pt"])
+        m["isL"], m["isR"] = cx.Array("isL", z3.IntSort(), z3.BoolSort()), cx.Array("isR", z3.IntSort(), z3.BoolSort())
+        self.havoc_more(cx, f)
+
+    def havoc_more(self, cx, f):
+        pass
+
+
+def pw(x, k):
+    """x ** k with the power uninterpreted (small constant exponents are expanded as the engine does)"""
+    if isinstance(k, int) and 0 <= k <= 4 and is_z3(x):
+        r = 1
+        for _ in range(k):
+            r = r * Z(x)
+        return r
+    if not is_z3(x) and not is_z3(k):
+        return fractions.Fraction(x) ** k if isinstance(k, int) else x ** k
+    return z3.Function("pow", Re, Re, Re)(R(x), R(k))
+
+
+# ======================================================================================================
+# TEBD.sweep
+# ======================================================================================================
+
+
+@register
+class Sweep(TEBDContract):
+    """(a) queue: the logical state D (applied gates followed by the queued sweep) advances by exactly
+    Sw(direction, fraction) modulo MERGE; the queue is empty after a queue=False call.
+    (b) coverage: a performed right sweep applies exactly one gate of the requested fraction on every even bond
+    (incl. (L-1,0) if cyclic and L odd), a left sweep on every odd bond (incl. (L-1,0) if cyclic and L even), in the
+    order fixed by RS / LS, and touches no other bond (skolem bond k).
+    (c) gauge (open chains, mpsghost of C08): the orthogonality centre is on the sites of every gate_split_, the sweep
+    ends with the centre at L-1 (right) / 0 (left), imaginary-time renormalisation divides the centre site."""
+
+    target = f"{TEBDC}.sweep"
+    floor = 100
+
+    def cases(self):
+        out = []
+
+        def add(direction, queue, qs, dt, cyclic, imag):
+            out.append(NS(name=f"direction={direction},queue={queue},queued={qs},dt={dt},cyclic={cyclic},imag={imag}",
+                          direction=direction, queue=queue, qs=qs, dt=dt, cyclic=cyclic, imag=imag))
+
+        for direction in ("right", "left"):
+            for cyclic in (False, True):
+                for queue in (False, True):
+                    for qs in ("absent", "none", "right", "left"):
+                        add(direction, queue, qs, "none", cyclic, False)
+                    add(direction, queue, "none", "real", cyclic, False)
+                add(direction, False, "none", "none", cyclic, True)
+                add(direction, False, "left" if direction == "right" else "right", "none", cyclic, True)
+        return out
+
+    def inputs(self, cx, case):
+        qf = cx.Real("qf")
+        q = {"absent": ABSENT, "none": None, "right": ["right", qf], "left": ["left", qf]}[case.qs]
+        ref = new_tebd(cx, cyclic=case.cyclic, imag=case.imag, queue=q)
+        cx.ghost["q0"] = (case.qs in ("right", "left"), DIRS.get(case.qs, 0), qf)
+        a = NS(dict(self=ref, direction=case.direction, dt_frac=cx.Real("dt_frac"),
+                    dt=None if case.dt == "none" else cx.Real("dt"), queue=case.queue))
+        for c in self.reqs(cx, a).values():
+            cx.assume(c)
+        for c in self.gauge_reqs(cx, a, case.qs in ("right", "left"), DIRS.get(case.qs, 0)).values():
+            cx.assume(c)
+        return a
+
+    # what a call does, as a function of (queue flag, queued sweep): list of performed (dirflag, frac), new queue
+    @staticmethod
+    def plan(present, qd, qf, queue, d, f):
+        if queue:
+            if present:
+                if qd == d:
+                    return [], (True, d, R(qf) + R(f))
+                return [(qd, qf)], (True, d, f)
+            return [], (True, d, f)
+        if present:
+            return [(qd, qf), (d, f)], (False, 0, 0)
+        return [(d, f)], (False, 0, 0)
+
+    @staticmethod
+    def eff_frac(f, a):
+        return a.dt_frac if a.dt is None else R(a.dt_frac) * (R(a.dt) / R(f["_dt"]))
+
+    def reqs(self, cx, a):
+        """preconditions over the heap (assumed for the body, asserted at call sites)"""
+        f = cx.fields(a.self)
+        d = {}
+        if a.dt is not None:
+            d["_dt!=0"] = f["_dt"] != 0
+        return d
+
+    def gauge_reqs(self, cx, a, present, qd):
+        f = cx.fields(a.self)
+        if f["cyclic"]:
+            return {}
+        performed, _ = self.plan(present, qd, 0, a.queue, DIRS[a.direction], 0)
+        if not performed:
+            return {}
+        return {"gauge: orthogonality centre at the first bond of the first performed sweep":
+                gauge_pre(cx, f["_pt"], performed[0][0])}
+
+    def requires(self, a, case):
+        return {}
+
+    # ---- body proof
+    def inputs_post(self, cx, a):
+        pass
+
+    def ensures(self, a, r, cx, case):
+        ref = a.self
+        f, p = cx.fields(ref), cx.pre(ref)
+        L, cyclic = f["L"], f["cyclic"]
+        present, qd, qf = cx.ghost["q0"]
+        d = DIRS[a.direction]
+        fe = self.eff_frac(p, a)
+        performed, (np_, nd, nf) = self.plan(present, qd, qf, a.queue, d, fe)
+        out = {"returns-None": r is None}
+        # ---- (a) queue
+        rep, present1, d1, f1 = get_queue(f)
+        out["queue: attribute-exists-afterwards"] = "_queued_sweep" in f
+        out["queue: present-iff-planned"] = present1 == np_
+        if np_ and present1:
+            out["queue: holds-(direction,fraction)"] = And(d1 == nd, Z(R(f1)) == Z(R(nf)))
+        if not a.queue:
+            out["queue: empty-after-queue=False"] = present1 is False
+        # logical state advances by Sw(direction, fraction) modulo MERGE
+        S0 = p["g_S"]
+        D0 = Sw(z3.IntVal(qd), R(qf), S0) if present else S0
+        merge = True
+        if present and qd == d:
+            merge = Sw(z3.IntVal(d), R(fe), Sw(z3.IntVal(d), R(qf), S0)) == Sw(z3.IntVal(d), R(qf) + R(fe), S0)  # def-MERGE
+        defs = []
+        S = S0
+        for (dd, ff) in performed:
+            defs.append(Sw(z3.IntVal(dd), R(ff), S) == sw_def(dd, ff, S, L, cyclic))  # def-Sw
+            S = Sw(z3.IntVal(dd), R(ff), S)
+        cx.assume(And(merge, *defs))
+        out["queue: logical-state-advances-by-Sw(direction,fraction)-modulo-merge"] = D_logical(f) == Sw(z3.IntVal(d), R(fe), D0)
+        out["applied-gates==performed-sweeps-in-order"] = f["g_S"] == S
+        # ---- (b) coverage, for the skolem bond
+        amt = z3.Select(p["g_amt"], KB)
+        cnt = z3.Select(p["g_cnt"], KB)
+        for (dd, ff) in performed:
+            hit = in_dir(KB, dd, L, cyclic)
+            amt = amt + If(hit, R(ff), 0)
+            cnt = cnt + If(hit, 1, 0)
+        out["coverage: every-bond-of-the-sweep-parity-gets-the-fraction-once, no-other-bond-touched"] = And(
+            z3.Select(f["g_amt"], KB) == amt, z3.Select(f["g_cnt"], KB) == cnt)
+        # ---- (c) gauge
+        if not cyclic and performed:
+            out["gauge: centre-at-L-1-after-right / 0-after-left"] = gauge_post(cx, f["_pt"], performed[-1][0])
+            if performed[-1][0] == 1:
+                out["gauge: sites-2..L-1-right-isometric-after-left"] = gauge_pre(cx, f["_pt"], 0)
+        if not performed:
+            m, mp = cx.fields(f["_pt"]), cx.pre(p["_pt"])
+            out["no-sweep-performed: state-untouched"] = And(f["g_S"] == p["g_S"], m["isL"] == mp["isL"], m["isR"] == mp["isR"])
+        ren = [e for e in cx.events if e[0] == "renorm"]
+        out["imag: renormalised-once-per-performed-sweep"] = len(ren) == (len(performed) if f["imag"] else 0) or \
+            (len(ren) == 1 and len(performed) == 2 and f["imag"])  # (the drained sweep renormalises inside the callee)
+        out["frame: time-fields-untouched"] = And(f["t"] == p["t"], f["_dt"] == p["_dt"], f["_err"] == p["_err"])
+        return out
+
+    # ---- loops
+    def inv_right(self, v):
+        cx = v.cx
+        ref = cx.ghost["self"]
+        f = cx.fields(ref)
+        L, cyclic = f["L"], f["cyclic"]
+        g = cx.ghost["loop_entry"]
+        t, i = v._it0, v.i
+        fr = R(v.dt_frac)
+        d = {"i<=L": i <= L,
+             "chain": f["g_S"] == RS(fr, g["S"], Z(t)),
+             "coverage": And(
+                 z3.Select(f["g_amt"], KB) == z3.Select(g["amt"], KB) + If(And(0 <= KB, KB < i, KB % 2 == 0), fr, 0),
+                 z3.Select(f["g_cnt"], KB) == z3.Select(g["cnt"], KB) + If(And(0 <= KB, KB < i, KB % 2 == 0), 1, 0))}
+        if not cyclic:
+            m = cx.fields(f["_pt"])
+            d["gauge"] = And(c08.forall_sites(Implies(And(0 <= K, K < i - 1), c08.sel(m["isL"], K))),
+                             c08.forall_sites(Implies(And(K > i - 1, K > 1, K < L), c08.sel(m["isR"], K))))
+        return d
+
+    def facts_right(self, v):
+        cx = v.cx
+        g = cx.ghost["loop_entry"]
+        fr = R(v.dt_frac)
+        t = Z(v._it0)
+        return [RS(fr, g["S"], 0) == g["S"], RS(fr, g["S"], t + 1) == G_(2 * t, fr, RS(fr, g["S"], t))]  # def-RS
+
+    def inv_left(self, v):
+        cx = v.cx
+        ref = cx.ghost["self"]
+        f = cx.fields(ref)
+        L, cyclic = f["L"], f["cyclic"]
+        g = cx.ghost["loop_entry"]
+        t = Z(v._it1)
+        fr = R(v.dt_frac)
+        nl, last = nL_of(L), last_odd(L)
+        i = last - 2 * t  # the bond the next iteration acts on
+        done = And(i < KB, KB <= last, KB % 2 == 1)
+        d = {"t<=nL": t <= nl,
+             "chain": f["g_S"] == LS(fr, g["S"], t),
+             "coverage": And(z3.Select(f["g_amt"], KB) == z3.Select(g["amt"], KB) + If(done, fr, 0),
+                             z3.Select(f["g_cnt"], KB) == z3.Select(g["cnt"], KB) + If(done, 1, 0))}
+        if not cyclic:
+            m = cx.fields(f["_pt"])
+            d["gauge"] = And(c08.forall_sites(Implies(And(K > i + 2, K < L), c08.sel(m["isR"], K))),
+                             c08.forall_sites(Implies(And(0 <= K, K < i + 2, K < L - 2), c08.sel(m["isL"], K))))
+        return d
+
+    def facts_left(self, v):
+        cx = v.cx
+        f = cx.fields(cx.ghost["self"])
+        g = cx.ghost["loop_entry"]
+        fr = R(v.dt_frac)
+        t = Z(v._it1)
+        last = last_odd(f["L"])
+        return [LS(fr, g["S"], 0) == g["S"], LS(fr, g["S"], t + 1) == G_(last - 2 * t, fr, LS(fr, g["S"], t))]  # def-LS
+
+    @property
+    def loops(self):
+        dead = {"U": lambda cx: None, "sites": lambda cx: None}  # assigned in the body before any use
+        return {0: Loop("for i in range(start_site_ind, final_site_ind, 2)", self.snap(self.inv_right),
+                        facts=self.snap(self.facts_right), retype=dead),
+                1: Loop("for i in reversed(range(final_site_ind, self.L - 1, 2))", self.snap(self.inv_left),
+                        facts=self.snap(self.facts_left), retype=dead)}
+
+    def snap(self, fn):
+        """capture the ghost state at loop entry (first evaluation on a path = inv-init, before any havoc)"""
+        def wrapped(v):
+            cx = v.cx
+            if "loop_entry" not in cx.ghost:
+                f = cx.fields(cx.ghost["self"])
+                cx.ghost["loop_entry"] = dict(S=f["g_S"], amt=f["g_amt"], cnt=f["g_cnt"])
+            return fn(v)
+        return wrapped
+
+    def call(self, cx, name, args, kwargs, node):
+        if name == ".sweep" and isinstance(args[0], Ref) and args[0].kind == "TEBD":
+            r = super().call(cx, name, args, kwargs, node)
+            cx.ghost.pop("loop_entry", None)  # the recursive call (queue drain) happened before this path's loop
+            return r
+        return super().call(cx, name, args, kwargs, node)
+
+    # ---- callee use
+    def apply(self, cx, a, node, case=None):
+        ref = a.self
+        f = cx.fields(ref)
+        for lab, c in self.reqs(cx, a).items():
+            cx.oblige(f"call-pre@{node.lineno}:sweep:{lab}", "call-pre", c, node.lineno)
+        if a.direction not in DIRS:
+            raise Unsupported("sweep direction")
+        d = DIRS[a.direction]
+        fe = self.eff_frac(f, a)
+        rep, present, qd, qf = get_queue(f)
+        if not isinstance(present, bool):
+            present = cx.decide(present, node.lineno)
+        if present and not isinstance(qd, int):
+            qd = 0 if cx.decide(Z(qd) == 0, node.lineno) else 1
+            if qd == 1:
+                cx.assume(Z(get_queue(f)[2]) == 1)
+        queue = a.queue
+        if not isinstance(queue, bool):
+            raise Unsupported("symbolic queue flag")
+        performed, (np_, nd, nf) = self.plan(present, qd, qf, queue, d, fe)
+        S0 = f["g_S"]
+        if present and qd == d and queue:
+            cx.assume(Sw(z3.IntVal(d), R(fe), Sw(z3.IntVal(d), R(qf), S0)) == Sw(z3.IntVal(d), R(qf) + R(fe), S0))  # def-MERGE
+        for (dd, ff) in performed:
+            perform(cx, ref, dd, ff, node, "sweep")
+        set_queue(f, rep, np_, nd, nf)
+        return None
